@@ -4,6 +4,15 @@ import json, subprocess
 
 CHECKS = {
  # id: (level, technique, level text, level note, design ref)
+ "C02": ("exploration", "model-based stateful PBT: BTreeMap reference model, bounded-exhaustive op sequences + random sequences, six front-ends differentially",
+         "Every op sequence up to length 2 (quick) / 3 (thorough) over a 58-op alphabet is enumerated and random sequences up to length 30/60 are generated; each runs on six front-ends and every return value plus a final full scan is compared with a map model written from the statement.",
+         "trusts the reference model (about 100 lines); single-threaded histories only (C01 covers races)", "4/C02"),
+ "C03": ("exploration", "PBT with an oracle computed from the statement (extension order, error-class precedence, default_value, caching) over generated file states and edit/load histories",
+         "Random per-extension file states (present via each FileContent variant / absent / unreadable with an io kind), extension lists of length 0..3, compound chains of depth 0..4, default_value modes and break/repair histories; expected result, error class, error id chain and default_value argument are computed from the statement and compared.",
+         "the loader is a harness loader; the in-memory source delivers the three FileContent variants", "4/C03"),
+ "C17": ("exploration", "PBT over initialiser scripts x threads x seed kinds with invariants (mutual exclusion, single success, seed continuity, drop ledger) and the blocked-state detector for get()",
+         "Generated scripts of failing / panicking / succeeding initialisers on 1..8 threads with spin rendezvous; invariants are checked on the joined history and a drop ledger; a blocking get() is caught as a deadlock of the case.",
+         "thread interleavings are sampled; liveness of get() is a bounded-safety reading (no all-blocked state in the explored executions)", "4/C17"),
  "C16": ("exploration", "model-based stateful PBT (Vec<u8>/String reference model) + checking global allocator; fuzz target c16",
          "Random op sequences over a pool of SharedBytes/SharedString handles are compared step by step with a Vec<u8>/String model, while a checking allocator verifies every free (layout, double free, poison, live blocks). Racing final drops behind a spin rendezvous sample the refcount race. Exploration, not proof: byte inputs and schedules are sampled.",
          "trusts the harness model and allocator wrapper; thread interleavings are OS-scheduled (sampled)", "4/C16"),
